@@ -67,7 +67,8 @@ def harnesses(tier, seed):
         hs.append({"name": MOD + "u1k_conv_u%d" % w,
                    "function": "CellType::{into_u64, into_i64, from_u64, from_u8, into_u8, from_i16, try_into_i16} for u%d" % w,
                    "clause": "zero/sign extension and truncation as documented; from_u64(into_u64(x)) == x; into_u8(from_u8(b)) == b; try_into_i16(x) == Some(s) => from_i16(s) == x",
-                   "properties": ["C14"], "bounded_by": None,
+                   # C04: `.` / `,` of the in-place interpreter go through into_u8 / from_u8 (callee contracts its proof assumes)
+                   "properties": ["C14", "C04"], "bounded_by": None,
                    "complete_over": "full domain of every argument (loop-free harness: a complete proof at this width)", "timeout": t,
                    # at 8 and 16 bits every value fits an i16: the `None` arm is legitimately dead
                    "allow_unreachable": (["s < i16::MIN as i64"] if w <= 16 else []) + (["c.try_into_i16() == Some(h)"] if w < 16 else [])})
